@@ -16,10 +16,13 @@ DDP_TEMPLATES = {
 }
 
 
-def mc_dist(W, GS, owner, nsteps, dev, inv, props):
-    mod = (f"---- MODULE MC_Dist ----\nEXTENDS ShampooDist\nMC_Owner == {tlc.tla_value(owner)}\n"
+def mc_dist(W, GS, owner, nsteps, dev, inv, props, pgof=None):
+    """pgof: parameter group (1-based) of every block; default one parameter group"""
+    pgof = pgof or [1] * len(owner)
+    mod = (f"---- MODULE MC_Dist ----\nEXTENDS ShampooDist\nMC_Owner == {tlc.tla_value(owner)}\nMC_PGOf == {tlc.tla_value(pgof)}\n"
            f"MC_Dev == {tlc.tla_value(set(dev)) if dev else '{}'}\n====\n")
     cfg = (f"SPECIFICATION Spec\nCONSTANTS W = {W}\n GS = {GS}\n NBlk = {len(owner)}\n Owner <- MC_Owner\n NSteps = {nsteps}\n"
+           f" NPG = {max(pgof)}\n PGOf <- MC_PGOf\n"
            f" Deviations <- MC_Dev\n" + "".join(f"INVARIANT {i}\n" for i in inv) + "".join(f"PROPERTY {p}\n" for p in props))
     return tlc.run("MC_Dist", mod, cfg, tag="C06-mc", timeout=1800)
 
@@ -32,14 +35,22 @@ def make_task(rng, W=None, GS=None, starve=None):
     g = family.draw_group(rng, "_ddp", method=None)
     if g["kind"] == "soap":
         g["method"] = "eigh"
-    draw = family.make_draw(rng, [g], dtype="float32", pdtype="float32")
+    groups = [g]
+    if rng.random() < 0.3:          # a second parameter group: own distributor, same process groups, gathers one after the other
+        name2 = rng.choice([k for k in DDP_TEMPLATES if int(k[1:]) >= GS])
+        family.TEMPLATES["_ddp"] = DDP_TEMPLATES[name2]
+        g2 = family.draw_group(rng, "_ddp", method=None)
+        if g2["kind"] == "soap":
+            g2["method"] = "eigh"
+        groups.append(g2)
+    draw = family.make_draw(rng, groups, dtype="float32", pdtype="float32")
     masks = dc.random_masks(rng, draw, rng.choice([3, 4, 5]))
     return {"draw": draw, "W": W, "GS": GS, "comm": rng.choice(["fp32", "fp32", "bf16", "fp16"]), "comm_params": rng.random() < 0.4,
             "masks": masks, "seed": rng.randrange(1 << 30), "template": name}
 
 
-def owner_from_info(res, GS):
-    sel = [res["info"][str(r)][0]["selector"] for r in range(GS)]
+def owner_from_info(res, GS, gi=0):
+    sel = [res["info"][str(r)][gi]["selector"] for r in range(GS)]
     n = len(sel[0])
     owner = []
     for b in range(n):
@@ -48,9 +59,9 @@ def owner_from_info(res, GS):
     return owner
 
 
-def block_masks(task, res):
-    """per step: the 1-based blocks that have a gradient (blocks follow their parameter)"""
-    g = task["draw"]["groups"][0]
+def block_masks(task, res, gi=0):
+    """per step: the 1-based blocks of parameter group gi that have a gradient (blocks follow their parameter)"""
+    g = task["draw"]["groups"][gi]
     from harness import adapter
     counts = []
     for shp in g["shapes"]:
@@ -62,7 +73,7 @@ def block_masks(task, res):
         for pi, c in enumerate(counts):
             for _ in range(c):
                 b += 1
-                if m[0][pi]:
+                if m[gi][pi]:
                     blocks.append(b)
         out.append(blocks)
     return out
@@ -79,9 +90,11 @@ def evaluate(ctx, tasks, results, prop="C06"):
         if not res["info"]:
             ctx.violation(f"no rank finished construction: {res['errors']}", {"kind": "construction_failed"}, {"task": task})
             continue
-        owner = owner_from_info(res, task["GS"])
-        seg = res["info"]["0"][0]["seg"]
-        cases.append({"W": task["W"], "GS": task["GS"], "owner": owner, "seg": seg, "masks": block_masks(task, res), "logs": res["logs"]})
+        npg = len(task["draw"]["groups"])
+        pgs = [{"owner": owner_from_info(res, task["GS"], gi), "seg": res["info"]["0"][gi]["seg"]} for gi in range(npg)]
+        per_pg = [block_masks(task, res, gi) for gi in range(npg)]
+        masks = [[per_pg[gi][k] for gi in range(npg)] for k in range(len(task["masks"]))]
+        cases.append({"W": task["W"], "GS": task["GS"], "pgs": pgs, "masks": masks, "logs": res["logs"]})
         keep.append(i)
     verdicts, _ = tlc.oracle("DistTraceRun", TRACE, cases, tag=f"{prop}-trace") if cases else ([], None)
     for i, v, case in zip(keep, verdicts, cases):
@@ -97,12 +110,14 @@ def evaluate(ctx, tasks, results, prop="C06"):
             ctx.violation(f"process-group creation sequences differ between ranks and are not explained by the specification: "
                           f"{[l['created'] for l in res['logs']]}", {"kind": "group_creation", "verdict": v["creation"]}, rep)
         # ownership: every block's state lives on exactly one rank of the group
-        if -1 in case["owner"]:
-            ctx.violation(f"a block is owned by zero or several ranks of its group: {case['owner']}", {"kind": "owner_unique"}, rep)
+        for pg in case["pgs"]:
+            if -1 in pg["owner"]:
+                ctx.violation(f"a block is owned by zero or several ranks of its group: {pg['owner']}", {"kind": "owner_unique"}, rep)
         for r, inf in res["info"].items():
-            if inf[0]["n_state_blocks"] != inf[0]["n_local"]:
-                ctx.violation(f"rank {r} holds optimizer state for {inf[0]['n_state_blocks']} blocks but owns {inf[0]['n_local']}",
-                              {"kind": "state_on_non_owner"}, rep)
+            for gi, ig in enumerate(inf):
+                if ig["n_state_blocks"] != ig["n_local"]:
+                    ctx.violation(f"rank {r} holds optimizer state for {ig['n_state_blocks']} blocks of parameter group {gi} but owns {ig['n_local']}",
+                                  {"kind": "state_on_non_owner"}, rep)
         # step phase
         starving = v["starves"]
         bad_run = res["verdict"] is not None or res["param_mismatch"] or any(res["errors"].values())
@@ -130,17 +145,20 @@ def run(ctx):
     rng = random.Random(ctx.seed * 7919 + 6)
     INV = ("SerialEquivalence", "ReplicaAgreement", "OwnerUnique", "InvCreation")
     mcs = [(2, 1, [0, 0, 0], 3), (2, 2, [0, 1, 0], 3), (3, 3, [0, 1, 2], 3), (4, 2, [0, 1, 0, 1], 2), (4, 4, [0, 1, 2, 3], 2)]
+    mcs = [m + (None,) for m in mcs] + [(2, 2, [0, 1, 1, 0], 2, [1, 1, 2, 2]), (3, 3, [0, 1, 2, 2, 1, 0], 1, [1, 1, 1, 2, 2, 2])]
     if not quick:
-        mcs += [(4, 2, [0, 1, 0, 1], 3), (4, 4, [0, 1, 2, 3, 0], 2), (3, 1, [0, 0, 0], 3), (4, 1, [0, 0, 0], 3), (4, 2, [0, 0, 1], 3)]
-    for W, GS, owner, ns in mcs:
-        res = mc_dist(W, GS, owner, ns, (), INV, ("NoRankLeftWaiting",))
-        ctx.add_tlc(res, f"ShampooDist W={W} GS={GS} owner={owner} steps={ns}, all mask histories, all interleavings, liveness")
+        mcs += [(4, 2, [0, 1, 0, 1], 3, None), (4, 4, [0, 1, 2, 3, 0], 2, None), (3, 1, [0, 0, 0], 3, None), (4, 1, [0, 0, 0], 3, None),
+                (4, 2, [0, 0, 1], 3, None), (4, 2, [0, 1, 0, 1], 2, [1, 1, 2, 2]), (4, 2, [0, 1, 0, 1, 1], 2, [1, 1, 2, 2, 2])]
+    for W, GS, owner, ns, pgof in mcs:
+        res = mc_dist(W, GS, owner, ns, (), INV, ("NoRankLeftWaiting",), pgof)
+        ctx.add_tlc(res, f"ShampooDist W={W} GS={GS} owner={owner} param groups={pgof or 1} steps={ns}, all mask histories, all interleavings, liveness")
         if not res.ok:
             raise tlc.TLCMachineryError(f"ShampooDist (repaired design) violates {res.violated} deadlock={res.deadlock}\n" + "\n".join(res.trace)[-2000:])
     wit = []
     r1 = mc_dist(4, 2, [0, 1, 0, 1], 2, ("SkipOnLocalEmpty",), ("SerialEquivalence",), ())
     r2 = mc_dist(4, 2, [0, 1, 0, 1], 1, ("LazyOwnerMesh",), ("InvCreation",), ())
-    if r1.ok or r2.ok:
+    r3 = mc_dist(2, 2, [0, 1, 0, 1], 1, ("SkipOnLocalEmpty",), ("SerialEquivalence",), (), [1, 1, 2, 2])
+    if r1.ok or r2.ok or r3.ok:
         raise tlc.TLCMachineryError("vacuity: the named deviations do not violate the ShampooDist invariants")
     wit = [{"deviation": "SkipOnLocalEmpty", "violates": r1.violated + (["deadlock"] if r1.deadlock else [])},
            {"deviation": "LazyOwnerMesh", "violates": r2.violated}]
@@ -151,12 +169,12 @@ def run(ctx):
     cases, verdicts = evaluate(ctx, tasks, results)
     hist = {}
     for t, v in zip(tasks, verdicts):
-        k = f"W={t['W']},GS={t['GS']},{t['comm']},params={t['comm_params']}"
+        k = f"W={t['W']},GS={t['GS']},{t['comm']},params={t['comm_params']},pgs={len(t['draw']['groups'])}"
         hist[k] = hist.get(k, 0) + 1
     ctx.put("configurations_run", hist)
     ctx.put("histories_with_starvation", sum(1 for v in verdicts if v["starves"]))
     ctx.put("distinct_nontrivial", sum(1 for t in tasks if t["W"] > 1 and len({repr(m) for m in t["masks"]}) > 1))
-    ctx.put("rule", "MC: ShampooDist for W<=4, every divisor group size, 3-5 blocks, every mask history, every interleaving of rank-local "
+    ctx.put("rule", "MC: ShampooDist for W<=4, every divisor group size, 3-6 blocks in one or two parameter groups (gathers of different groups have different signatures), every mask history, every interleaving of rank-local "
                     "computation and group gathers: deadlock freedom, NoRankLeftWaiting (liveness), SerialEquivalence, ReplicaAgreement, "
                     "OwnerUnique, CreationAgreement; R: the real DDPDistributor + optimizer on W<=8 simulated ranks (thread-per-rank process "
                     "group, arrival gates with seeded release order, exact deadlock/mismatch detection), float32 parameters, FP32/BF16/FP16 "
@@ -165,7 +183,7 @@ def run(ctx):
                     "logs of group creations and gathers validated by TLC (DistTrace) against the specification; non-trivial = W>1 with a mask change")
     if tasks:
         ctx.sample({"W": tasks[0]["W"], "GS": tasks[0]["GS"], "comm": tasks[0]["comm"], "communicate_params": tasks[0]["comm_params"],
-                    "shapes": tasks[0]["draw"]["groups"][0]["shapes"], "masks": tasks[0]["masks"], "verdict": verdicts[0] if verdicts else None})
+                    "shapes": [g["shapes"] for g in tasks[0]["draw"]["groups"]], "masks": tasks[0]["masks"], "verdict": verdicts[0] if verdicts else None})
     ctx.assume("the threaded process group stands in for the transport; group-creation consistency is decided on the logs by the "
                "specification, not by waiting for a hang")
     ctx.assume("gradients are identical on all ranks (already reduced by DDP)")
